@@ -383,6 +383,8 @@ def slice_C01(ctx):
         tuples.append((d, fl, pat, inp, "", "grammar"))
     for d, fl, pat, inp, _ in altfollow_stream(ctx, ctx.n(2000, 20000)):
         tuples.append((d, fl, pat, inp, "", "altfollow"))
+    for d, fl, pat, inp, _ in counted_nullable_stream(ctx, ctx.n(2000, 20000)):
+        tuples.append((d, fl, pat, inp, "", "counted-nullable"))
     # (b) seeded random structured patterns incl. back-references
     for d, fl, pat, inp, ast in random_stream(ctx, ctx.n(24000, 240000), shapes=0.3, per_pattern=5):
         tuples.append((d, fl, pat, inp, "", "random"))
@@ -846,6 +848,30 @@ def altfollow_stream(ctx, count, repl=""):
         pat = rng.choice(["", "^", "c"]) + x + q + rng.choice(["(?:%s)", "(%s)"]) % "|".join(members) + rng.choice([y, y + "$", ""])
         for inp in (x * 2 + y, x + y, x * 3, a_ + y, x + a_ + y, "c" + x * 2 + y, x):
             out.append(("xpath", rng.choice(["", "", "i"]), pat, inp, repl))
+    return out
+
+
+def counted_nullable_stream(ctx, count, repl=""):
+    """a finite counted quantifier over a body that can match the empty string, on inputs with more
+    repetitions than the bound allows: ^(a?){2}$ on aaa; own generator state"""
+    rng = random.Random(ctx.seed * 86028157 + 31)
+    out = []
+    while len(out) < count:
+        a, b = rng.sample("abc", 2)
+        body = rng.choice(["%s?" % a, "%s|" % a, "|%s" % a, "%s*" % a, "%s?%s?" % (a, b), "(?:%s|%s)?" % (a, b), "%s{0,1}" % a])
+        lo = rng.choice([0, 1, 2, 2, 3])
+        hi = lo + rng.choice([0, 0, 1, 2])
+        if hi == 0:
+            hi = 1
+        q = "{%d}" % lo if (lo == hi and lo > 0) else "{%d,%d}" % (lo, hi)
+        grp = rng.choice(["(?:%s)", "(%s)"]) % body
+        pre, post = rng.choice([("^", "$"), ("x", "y"), ("^x", "y$"), ("", "$")])
+        pat = pre + grp + q + post
+        core_pre = pre.replace("^", "")
+        core_post = post.replace("$", "")
+        for k in (hi - 1 if hi > 0 else 0, hi, hi + 1, hi + 2):
+            out.append(("xpath", "", pat, core_pre + a * k + core_post, repl))
+        out.append(("xpath", "", pat, core_pre + (a + b) * hi + core_post, repl))
     return out
 
 
